@@ -110,25 +110,36 @@ Theorem C06_header_version : forall e st, exists r, fill_header e st = u8 (e_ver
 Proof. exact fill_header_version. Qed.
 Print Assumptions C06_header_version.
 
+(* numeric public id of the language (not anonymous): version, id, [charset 106 — not in WBXML 1.0], table length, table *)
 Theorem C06_header_numeric_public_id : forall e st,
-  no_pid e = true ->
-  fill_header e st = [u8 (e_version e)] ++ mb_write (bl_pub_num (e_lang e)) ++ mb_write 106 ++ mb_write (strtbl_len st)
+  e_anonymous e = false -> no_pid e = true ->
+  fill_header e st = [u8 (e_version e)] ++ mb_write (bl_pub_num (e_lang e)) ++ header_charset e ++ mb_write (strtbl_len st)
                      ++ (if e_use_strtbl e then strtbl_construct (strtbl st) else []).
-Proof. exact fill_header_numeric. Qed.
+Proof. exact fill_header_numeric_lang. Qed.
 Print Assumptions C06_header_numeric_public_id.
+
+(* the charset field is UTF-8 (106) for versions 1.1 - 1.3 and absent for version 1.0 *)
+Theorem C06_header_charset : forall e,
+  (e_version e = 0 -> header_charset e = []) /\ (e_version e <> 0 -> header_charset e = [106]).
+Proof.
+  intros e. unfold header_charset. split; intros H.
+  - now rewrite H.
+  - apply N.eqb_neq in H. now rewrite H.
+Qed.
+Print Assumptions C06_header_charset.
 
 Theorem C06_header_textual_public_id_without_strtbl : forall e st p,
   bl_pub_num (e_lang e) = 1 -> e_anonymous e = false -> bl_pub_text (e_lang e) = Some p -> e_use_strtbl e = false ->
-  fill_header e st = [u8 (e_version e)] ++ ([0] ++ mb_write 0) ++ mb_write 106 ++ mb_write (u32 (len p + 1)) ++ (p ++ [0]).
+  fill_header e st = [u8 (e_version e)] ++ ([0] ++ mb_write 0) ++ header_charset e ++ mb_write (u32 (len p + 1)) ++ (p ++ [0]).
 Proof. exact fill_header_textual_nostrtbl. Qed.
 Print Assumptions C06_header_textual_public_id_without_strtbl.
 
 (* ---- C07, WBXML half --------------------------------------------------------------------------- *)
 
-(* an anonymous document carries public id 0x01 'unknown' and no id string *)
+(* an anonymous document of ANY language carries public id 0x01 'unknown' and no id string *)
 Theorem c07_wbxml_anonymous_header : forall e st,
-  e_anonymous e = true -> bl_pub_num (e_lang e) = 1 ->
-  fill_header e st = [u8 (e_version e); 1] ++ mb_write 106 ++ mb_write (strtbl_len st)
+  e_anonymous e = true ->
+  fill_header e st = [u8 (e_version e); 1] ++ header_charset e ++ mb_write (strtbl_len st)
                      ++ (if e_use_strtbl e then strtbl_construct (strtbl st) else []).
 Proof. exact fill_header_anonymous. Qed.
 Print Assumptions c07_wbxml_anonymous_header.
@@ -160,7 +171,7 @@ Theorem C06_header_textual_public_id_with_strtbl : forall e st p,
   bl_pub_num (e_lang e) = 1 -> e_anonymous e = false -> bl_pub_text (e_lang e) = Some p -> e_use_strtbl e = true ->
   exists idx tbl tlen,
     strtbl_add (strtbl st) (strtbl_len st) p = (idx, tbl, tlen) /\
-    fill_header e st = [u8 (e_version e)] ++ ([0] ++ mb_write idx) ++ mb_write 106 ++ mb_write tlen ++ strtbl_construct tbl /\
+    fill_header e st = [u8 (e_version e)] ++ ([0] ++ mb_write idx) ++ header_charset e ++ mb_write tlen ++ strtbl_construct tbl /\
     (tinv st -> tbl_size tbl < 4294967296 ->
        (offsets_from 0 tbl /\ tlen = len (strtbl_construct tbl)) /\ exists x, In x tbl /\ s_off x = idx /\ s_str x = p).
 Proof. exact fill_header_textual_strtbl. Qed.
